@@ -513,12 +513,69 @@ def known_predicate(o, k):
         return None
 
 
+def replay_tick(fn, fns, running):
+    from contracts.py.native import native_trx
+    dm = toolkit("data_msg")
+    t = native_trx()
+    t.running = running
+    msgs_ = []
+    for a in fns:
+        m = dm.TxMsg(fn=a % H, tn=0)
+        m.pwr, m.burst = 0, bytearray(148)
+        msgs_.append(m)
+        t._tx_queue.append(m)
+    sent, stale = [], []
+
+    class Fwd:
+        def forward_msg(self, src, m):
+            sent.append(m)
+    tr = toolkit("transceiver")
+    orig = tr.log.warning
+    tr.log.warning = lambda s_, *a: stale.append(s_)
+    try:
+        try:
+            t.clck_tick(Fwd(), fn)
+        except Exception as e:
+            return {"confirmed": True, "observed": "raises %s: %s" % (type(e).__name__, e), "expected": "returns", "tick": fn, "queue": list(fns)}
+    finally:
+        tr.log.warning = orig
+    if not running:
+        ok = not sent and not stale and t._tx_queue == msgs_
+        return {"confirmed": not ok, "observed": [len(sent), len(stale), len(t._tx_queue)], "expected": "idle tick changes nothing"}
+    bad = []
+    for m in msgs_:
+        c = tdma.klass_py(m.fn, fn)
+        got = (sum(1 for x in sent if x is m), sum(1 for x in t._tx_queue if x is m))
+        if got != ((1 if c == 1 else 0), (1 if c == 2 else 0)):
+            bad.append({"msg_fn": m.fn, "tick": fn, "class": ["stale", "due", "future"][c], "sent": got[0], "queued": got[1]})
+    exp_stale = sum(1 for m in msgs_ if tdma.klass_py(m.fn, fn) == 0)
+    if len(stale) != exp_stale:
+        bad.append({"stale_warnings": len(stale), "expected": exp_stale})
+    return {"confirmed": bool(bad), "observed": bad or "partition matches spec", "expected": "due sent once, passed reported stale, future kept", "tick": fn, "queue": list(fns)}
+
+
 def replay(payload):
     from contracts.py.native import native_trx
     f = payload["inputs"]
     dm = toolkit("data_msg")
     what = f.get("what")
     if what == "clck_tick":
+        r = replay_tick(f["fn"], f["fns"], bool(f["running"]))
+        if r["confirmed"] or not f["running"]:
+            return r
+        # the counter-model of a loop-invariant obligation is one abstract iteration, not necessarily a whole failing run:
+        # search a small grid of concrete ticks/queues around the model's values (only real misbehaviour confirms)
+        H_ = H
+        ticks = [f["fn"] % H_, 0, 1, 50, 101, 1325, H_ - 1, H_ // 2]
+        for tick in ticks:
+            for queue in ([tick], [(tick - 1) % H_], [(tick + 1) % H_], [(tick + 1) % H_, tick, (tick - 1) % H_, tick, (tick + H_ // 2) % H_],
+                          [(tick - 2) % H_, (tick - 1) % H_], [tick, tick, tick]):
+                r2 = replay_tick(tick, queue, True)
+                if r2["confirmed"]:
+                    r2["found_by"] = "native search around the model (tick %d, queue %s)" % (tick, queue)
+                    return r2
+        return r
+    if what == "clck_tick_model_only":
         import logging
         t = native_trx()
         t.running = bool(f["running"])
